@@ -212,6 +212,7 @@ impl Property for C03 {
         p.switch_pct = 0;
         p.eightbit_pct = 35;
         p.max_len = 300;
+        p.big_permille = 3;
         let mut t = to_char_trace("C03", seed, index, &mut r, &p);
         // set_use_utf8 between chunks (character front end only: the characters themselves do
         // not depend on the mode there, only what the recogniser does with SO/SI and designators)
@@ -352,6 +353,7 @@ impl Property for C11 {
         p.switch_pct = 25;
         p.wiring_p_pct = 100;
         p.max_len = 400;
+        p.big_permille = 4;
         let mut t = gen::trace("C11", seed, index, &p);
         if t.bytes_total() <= gen::bound(48) && r.chance(1, 2) {
             t.extra = vec![1];
@@ -558,7 +560,7 @@ fn osc_session(r: &mut Rng, utf8: bool) -> Vec<u8> {
                 }
                 out.push(*r.pick(b"0120120123456789lLzA"));
                 out.push(b';');
-                let k = *r.pick(&[0u64, 0, 1, 2, 3, 5, 8, 13, 21, 40, 70, 130]);
+                let k = if r.chance(1, 120) { *r.pick(&[1000u64, 4090, 4096, 4100, 6000]) } else { *r.pick(&[0u64, 0, 1, 2, 3, 5, 8, 13, 21, 40, 70, 130]) };
                 for _ in 0..k {
                     match r.below(20) {
                         0 => out.push(b';'),
